@@ -61,6 +61,17 @@ def listener_cases(ctx, alphabet, programs=None):
                         continue
                     for s in scheds:
                         cases.append((name, prog, s, {(notif, occ): op}))
+        # TWO requests from notifications (the second typically issued while the first is being enacted): every pair, with
+        # no ordinary request (quick) or with every placement of one (thorough)
+        singles = [(notif, occ, op) for notif in ('run', 'wai', 'pau', 'pla') for occ in (1, 2) for op in ('kill', 'pause', 'play')
+                   if not (notif == 'pau' and op == 'pause')]
+        pair_scheds = list(pm.schedules(npos, ops, 1)) if ctx.thorough else [{}]
+        for i, a in enumerate(singles):
+            for b in singles[i + 1:]:
+                if (a[0], a[1]) == (b[0], b[1]):
+                    continue
+                for s in pair_scheds:
+                    cases.append((name, prog, s, {(a[0], a[1]): a[2], (b[0], b[1]): b[2]}))
     return cases
 
 
@@ -91,7 +102,7 @@ def replay_pm(ctx, failure, monitors):
     import harness.pm_monitors  # noqa
     prog, sched = pm.fix_case(failure['case'])
     plan = {(a, b): c for a, b, c in failure['case'].get('listener_plan', [])} or None
-    r = pm.run_schedule(prog, sched, status0='s0', plan=plan)
+    r = pm.run_schedule(prog, sched, status0=pm.status0_for(sched), plan=plan)
     fails = []
     for m in monitors:
         fails.extend(pm.MONITORS[m](r))
